@@ -118,6 +118,9 @@ def run_case(case):
             r = realise.realise(at, k=int(rng.integers(1, 5)), rng=rng, relabel=bool(rng.integers(2)), flips="random")
             fr = frames.Frame(0, r.vertices, r.edges, r.cells)
         nc, nb = len(fr.cells), len(fr.big_edges)
+        # reference pressures, as a Surface Evolver dump provides them: they must never leak into the tensor
+        for cell in fr.cells.values():
+            cell.gt_pressure = float(rng.normal(0, 1))
         grid = int(rng.integers(1, 13))
         radius = float(rng.choice([0.5, 1.0, 1.5, 2.0, 3.0, 6.0]))
 
@@ -135,9 +138,12 @@ def run_case(case):
             return cur.get("tensors"), cur.get("collisions", 0)
         p1, T1 = rng.normal(0, 1, nc), rng.uniform(0.2, 2, nb)
         p2, T2 = rng.normal(0, 1, nc), rng.normal(0, 1, nb)
+        # exact zeros are legitimate values (a cell at the reference pressure, a slack interface)
+        p2[rng.random(nc) < 0.4] = 0.0
+        T2[rng.random(nb) < 0.3] = 0.0
         alpha = float(rng.uniform(-2, 3))
         s1, coll = run(p1, T1, True)
-        s2, _c = run(p2, T2, True)
+        s2, _c = run(p2, T2, False)       # exact zeros: a non-empty bin may legitimately carry the zero tensor
         s3, _c = run(alpha * p1 + p2, alpha * T1 + T2, True)
         if s1 and s2 and s3:
             mon.count("linearity:checked")
@@ -147,12 +153,13 @@ def run_case(case):
                     mech = "F-STRESS-KEY" if (grid >= 11 and coll) else "nonlinear"
                     mon.fail(mech, "the tensor depends jointly linearly on pressures and tensions", bin=list(k), grid=grid)
                     break
-        pc = float(rng.uniform(-3, 3))
+        pc = float(rng.uniform(-3, 3)) if rng.random() < 0.7 else 0.0
         s4, _c = run(np.full(nc, pc), np.zeros(nb), False)
         if s4:
             mon.count("isotropy:checked")
             for k, t in s4.items():
-                if np.any(t != 0) and np.abs(t - (-pc) * np.eye(2)).max() > 1e-12 * max(1, abs(pc)):
+                if (np.any(t != 0) or pc == 0.0) and np.abs(t - (-pc) * np.eye(2)).max() > 1e-12 * max(1, abs(pc)) \
+                        and (np.any(t != 0)):
                     mon.fail("not-isotropic", "-p times the identity when all tensions are zero and every cell has pressure p",
                              bin=list(k), t=t.tolist(), p=pc)
                     break
@@ -161,6 +168,11 @@ def run_case(case):
         CTX["cur"] = cur = {"generic": True}
         try:
             with env.Capture():
+                if rng.random() < 0.6:
+                    # an earlier evaluation with another grid must leave nothing behind
+                    CTX["cur"] = None
+                    fr.calculate_stress_tensor(coarsing=int(rng.integers(1, 13)), radius=float(rng.choice([0.5, 1.0, 3.0])))
+                    CTX["cur"] = cur
                 fr.calculate_stress_tensor(coarsing=grid, radius=radius)
             tens = cur.get("tensors")
             xc, yc = cur["centres"]
